@@ -63,40 +63,6 @@ class ClassInfo:
     methods: dict[str, FuncInfo] = field(default_factory=dict)
 
 
-class _Canon(ast.NodeTransformer):
-    """Canonical forms applied to every analysed module, so that the rules see one spelling of equivalent statements:
-         x = x <op> e   ->   x <op>= e        (x a name or an attribute; evaluated once either way)"""
-
-    _MIRROR = {ast.Eq: ast.Eq, ast.NotEq: ast.NotEq, ast.Lt: ast.Gt, ast.Gt: ast.Lt, ast.LtE: ast.GtE, ast.GtE: ast.LtE}
-
-    @staticmethod
-    def _constant_like(e) -> bool:
-        if isinstance(e, ast.Constant):
-            return True
-        if isinstance(e, ast.UnaryOp) and isinstance(e.operand, ast.Constant):
-            return True
-        if isinstance(e, ast.Name) and e.id.isupper():
-            return True
-        if isinstance(e, ast.Attribute) and e.attr.isupper() and isinstance(e.value, ast.Name) and e.value.id[:1].isupper():
-            return True  # ClientState.SELECTED, IMAPCommand.FETCH
-        return False
-
-    def visit_Compare(self, node):
-        #  CONSTANT <op> x   ->   x <mirrored op> CONSTANT      ("Yoda" comparisons read the same as the usual spelling)
-        self.generic_visit(node)
-        if len(node.ops) == 1 and type(node.ops[0]) in self._MIRROR and self._constant_like(node.left) and not self._constant_like(node.comparators[0]):
-            return ast.copy_location(ast.Compare(left=node.comparators[0], ops=[self._MIRROR[type(node.ops[0])]()], comparators=[node.left]), node)
-        return node
-
-    def visit_Assign(self, node):
-        self.generic_visit(node)
-        if len(node.targets) == 1 and isinstance(node.targets[0], (ast.Name, ast.Attribute)) and isinstance(node.value, ast.BinOp):
-            t, v = node.targets[0], node.value
-            if isinstance(v.op, (ast.Add, ast.Sub, ast.Mult, ast.BitOr, ast.BitAnd)) and ast.dump(v.left).replace("Load()", "X").replace("Store()", "X") == ast.dump(t).replace("Load()", "X").replace("Store()", "X"):
-                return ast.copy_location(ast.AugAssign(target=t, op=v.op, value=v.right), node)
-        return node
-
-
 class Program:
     def __init__(self, repo: str = REPO):
         self.repo = repo
